@@ -309,6 +309,11 @@ def oracle_c01(s: Session):
                 after = True
     if len(s.records) > len(s.reqs):
         fails.append(("more application instances than requests", "c01:instances"))
+    # every generated request is well formed and names a host the server answers for: the first one always starts an
+    # application (the later ones depend on how the earlier ones end)
+    if s.reqs and not s.records and s.responses and s.responses[0]["status"] in (404, 421):
+        fails.append((f"no application instance for a well-formed request: answered {s.responses[0]['status']} "
+                      f"(server_names {s.server_names}, raw headers {s.raw_headers})", "c01:not-started"))
     return fails
 
 
